@@ -442,6 +442,18 @@ func zzBuild(t reflect.Type, s map[string]interface{}, objs map[string]reflect.V
 		}
 	case "bool":
 		v.SetBool(s["v"].(bool))
+	case "opaque":
+		// non-nil value whose content the model does not describe: an empty object of the right kind
+		switch t.Kind() {
+		case reflect.Map:
+			return reflect.MakeMap(t)
+		case reflect.Slice:
+			return reflect.MakeSlice(t, 0, 0)
+		case reflect.Ptr:
+			return reflect.New(t.Elem())
+		case reflect.Chan:
+			return reflect.MakeChan(t, 1)
+		}
 	case "big":
 		id := "big" + s["id"].(string)
 		if o, ok := objs[id]; ok {
